@@ -32,7 +32,7 @@ def level_parts(rng):
     return parts_fn
 
 
-def gen_case(ctx, rng):
+def gen_case(ctx, rng, shared_keys=False):
     gen = T.TreeGen(rng, level_parts(rng), max_depth=2 if ctx.quick else rng.choice([2, 3]), max_branch=rng.choice([3, 4]), p_pool=0.15, input_fn=lambda d: rng.choice([f"in-{d}"] * 8 + [None, ""]))
     spec = gen.tree()
     keys = list(ALL_FC_KEYS)
@@ -42,12 +42,16 @@ def gen_case(ctx, rng):
         if node["k"] != "F":
             continue
         n = rng.randint(1, 3)
-        if len(keys) < n:
+        if shared_keys:
+            # the same few keys at every element (different inputs): what one element's evaluation produces must not reach another one
+            mine = rng.sample(["901", "902", "903"], rng.randint(1, 2))
+        elif len(keys) < n:
             mine = []
         else:
             mine, keys = keys[:n], keys[n:]
         for k in mine:
-            owners[k] = node["d"]
+            if not shared_keys:
+                owners[k] = node["d"]
         pools = G.Pools(rc=RC, hint=["501", "502"], fc=mine or ["901"])
 
         def cond(pools=pools, mine=mine):
@@ -62,7 +66,7 @@ def gen_case(ctx, rng):
         parts = GA.gen_parts(rng, cond, max_parts=2, p_bare=0.0, p_prefix=0.3, prefix_ops=("X",))
         node["x"] = T.make_expression(parts, rng)
     asg = {k: rng.choice("FFFU") for k in RC}
-    return {"spec": spec, "owners": owners, "asg": asg, "soll": rng.random() < 0.5, "schedule_seed": rng.randrange(1 << 30)}
+    return {"spec": spec, "owners": owners, "asg": asg, "soll": rng.random() < 0.5, "schedule_seed": rng.randrange(1 << 30), "shared": shared_keys, "stale": rng.random() < 0.5}
 
 
 async def check_tree(ctx, case):
@@ -73,8 +77,12 @@ async def check_tree(ctx, case):
     world = E.World("c15", rc=asg, fc_mode="text")
     chooser = sched.RandomChooser(random.Random(case["schedule_seed"]))
     sc = sched.Sched(chooser)
-    out = await TB.validate(spec, world, soll, scheduler=sc)
+    out = await TB.validate(spec, world, soll, scheduler=sc, stale_text=case.get("stale", False))
     ctx.evaluation()
+    if case.get("stale"):
+        ctx.count("runs_with_stale_text_in_context")
+    if case.get("shared"):
+        ctx.count("trees_with_shared_keys")
     if out[0] != "ok":
         ctx.violation(f"validation-raises-{type(out[1]).__name__}", f"validate_deep_anwendungshandbuch under {asg} {describe(out)[:300]}")
         return
@@ -85,6 +93,9 @@ async def check_tree(ctx, case):
             continue
         ctx.count("fc_events")
         _fc, key, _wid, text_before, text_after = ev
+        if text_before != text_after or text_before == TB.STALE_TEXT or (text_before is not None and text_before not in inputs.values()):
+            ctx.violation("foreign-input-seen", f"format constraint [{key}] was evaluated against {text_before!r} (context variable after the yield: {text_after!r}); the inputs of this AHB are {sorted(map(repr, set(inputs.values())))[:8]}")
+            return
         owner = owners.get(key)
         if owner is None:
             continue
@@ -136,8 +147,8 @@ async def check_tree(ctx, case):
 async def run(ctx):
     rng = ctx.rng
     E.install()
-    for i in range(ctx.budget(260, 26_000)):
-        case = gen_case(ctx, rng)
+    for i in range(ctx.budget(330, 33_000)):
+        case = gen_case(ctx, rng, shared_keys=i % 4 == 3)
         await check_tree(ctx, case)
         if i % 90 == 0:
             ctx.sample({"free_text_elements": [(n["d"], T.expr_string(n["x"]), n["input"]) for n in T.walk(case["spec"]) if n["k"] == "F"][:8], "owners": dict(list(case["owners"].items())[:8])}, cls="tree")
